@@ -126,6 +126,12 @@ func UntarDirectory(r io.Reader, destDir string) error {
 			return err
 		}
 
+		// The lexical check cannot see links created by earlier entries (or already
+		// present in the destination): the real parent directory must be inside too
+		if err := ensureInsideDest(destDir, targetPath); err != nil {
+			return err
+		}
+
 		switch header.Typeflag {
 		case tar.TypeDir:
 			// Create directory
@@ -137,6 +143,11 @@ func UntarDirectory(r io.Reader, destDir string) error {
 			// Create parent directories if needed
 			if err := os.MkdirAll(filepath.Dir(targetPath), 0755); err != nil {
 				return fmt.Errorf("failed to create parent directory: %w", err)
+			}
+
+			// Replace an existing link or file instead of writing through it
+			if fi, err := os.Lstat(targetPath); err == nil && !fi.IsDir() {
+				os.Remove(targetPath)
 			}
 
 			// Create file
@@ -153,14 +164,18 @@ func UntarDirectory(r io.Reader, destDir string) error {
 			file.Close()
 
 		case tar.TypeSymlink:
-			// Validate symlink target
-			if err := validateSymlink(destDir, targetPath, header.Linkname); err != nil {
-				return err
-			}
-
 			// Create parent directories if needed
 			if err := os.MkdirAll(filepath.Dir(targetPath), 0755); err != nil {
 				return fmt.Errorf("failed to create parent directory: %w", err)
+			}
+
+			// Validate symlink target relative to where the link really ends up
+			realDest, realLink, err := realLocation(destDir, targetPath)
+			if err != nil {
+				return err
+			}
+			if err := validateSymlink(realDest, realLink, header.Linkname); err != nil {
+				return err
 			}
 
 			// Remove existing file/symlink if any
@@ -175,6 +190,9 @@ func UntarDirectory(r io.Reader, destDir string) error {
 			// Hard links - validate target is within destDir
 			linkTarget, err := sanitizeTarPath(destDir, header.Linkname)
 			if err != nil {
+				return err
+			}
+			if err := ensureInsideDest(destDir, linkTarget); err != nil {
 				return err
 			}
 
@@ -234,6 +252,48 @@ func sanitizeTarPath(destDir, name string) (string, error) {
 	}
 
 	return targetPath, nil
+}
+
+// ensureInsideDest verifies that the directory in which path will be created lies inside
+// destDir once symbolic links are resolved. It resolves the deepest existing ancestor, so
+// it can be called before the parent directories are created.
+func ensureInsideDest(destDir, path string) error {
+	realDest, err := filepath.EvalSymlinks(destDir)
+	if err != nil {
+		return fmt.Errorf("failed to resolve destination: %w", err)
+	}
+	dir := filepath.Dir(path)
+	for {
+		real, err := filepath.EvalSymlinks(dir)
+		if err == nil {
+			if real != realDest && !strings.HasPrefix(real, realDest+string(filepath.Separator)) {
+				return fmt.Errorf("path escapes destination directory through a link: %s", path)
+			}
+			return nil
+		}
+		if fi, lerr := os.Lstat(dir); lerr == nil && fi.Mode()&os.ModeSymlink != 0 {
+			return fmt.Errorf("path passes through a dangling link: %s", path)
+		}
+		parent := filepath.Dir(dir)
+		if parent == dir {
+			return fmt.Errorf("failed to resolve path: %s", path)
+		}
+		dir = parent
+	}
+}
+
+// realLocation returns the resolved destination directory and the resolved location of
+// path, whose parent directory must exist.
+func realLocation(destDir, path string) (realDest, realPath string, err error) {
+	realDest, err = filepath.EvalSymlinks(destDir)
+	if err != nil {
+		return "", "", fmt.Errorf("failed to resolve destination: %w", err)
+	}
+	realParent, err := filepath.EvalSymlinks(filepath.Dir(path))
+	if err != nil {
+		return "", "", fmt.Errorf("failed to resolve path: %w", err)
+	}
+	return realDest, filepath.Join(realParent, filepath.Base(path)), nil
 }
 
 // validateSymlink checks if a symlink target is safe (doesn't escape the destination).
